@@ -49,6 +49,11 @@ struct WorldH : World {
     } else { k->passwd.push_back(PwEnt{"user1", 1001, 1001, "/home/user1", "/bin/sh"}); k->mkdir_p("/home/user1", 0755, 1001, 1001); }
     k->mkdir_p(t.home + "/alias", 02755, t.uids["alias"], t.gid_qmail)->uid = t.uids["alias"];
     k->put_exec(t.home + "/bin/qmail-newu", "qmail-newu", 0700);
+    if (mode == "pw2u") {
+      k->put_exec(t.home + "/bin/qmail-pw2u", "qmail-pw2u", 0711);
+      const Json &pj = plan->knobs["pw2u"];
+      for (const char *fn : {"include", "exclude", "mailnames", "subusers", "append"}) if (pj.has(fn)) k->put_file(t.home + "/users/" + fn, pj.gets(fn), 0644);
+    }
     if (plan->knobs.has("assign")) { assign_src = plan->knobs.gets("assign"); k->put_file(t.home + "/users/assign", assign_src, 0644); }
     if (plan->knobs.has("getpw_stub")) { k->put_exec(t.home + "/bin/qmail-getpw", "stub:getpw", 0711); k->natives["getpw"] = [this](int, char **) { const Json &g = plan->knobs["getpw_stub"]; std::string o = g.gets("out"); if (!o.empty()) k->sys_write(1, o.data(), o.size()); if (g.getb("crash", false)) k->kill_proc(k->cp(), 11); return (int)g.geti("code", 0); }; }
     for (auto &f : plan->faults) if (f.kind == "error" || f.kind == "kill" || f.kind == "null") lookup_fault = true;
@@ -104,6 +109,12 @@ struct WorldH : World {
       Inode *cdb = k->lookup(t.home + "/users/cdb");
       if (cdb) for (auto &fl : plan->knobs["cdb_flip"].a) { size_t off = (size_t)fl.i() % (cdb->data.size() ? cdb->data.size() : 1); if (!cdb->data.empty()) { cdb->data[off] = (char)(cdb->data[off] ^ (1 << (fl.i() % 8))); cdb->synced = cdb->data; cdb_damaged = true; k->note_fault("cdb_corrupt"); } }
       if (cdb && tr >= 0 && (size_t)tr < cdb->data.size()) { cdb->data.resize((size_t)tr); cdb->synced = cdb->data; cdb_damaged = true; k->note_fault("cdb_corrupt"); }
+    }
+    if (mode == "pw2u") {
+      std::vector<std::string> av = {"qmail-pw2u"}; for (auto &a : plan->knobs["pw2u"]["args"].a) av.push_back(a.str());
+      helper_pid = k->spawn(k->cp(), t.home + "/bin/qmail-pw2u", av, {}, {{0, k->of_preloaded(plan->knobs["pw2u"].gets("passwd_text"), "passwd")}, {1, k->of_sink(out)}, {2, k->of_sink(errs)}}, 0, 0, "/");
+      int pid2 = helper_pid; k->block([this, pid2] { Proc *p = k->find_proc(pid2); return !p || p->st != Proc::LIVE; }, k->clock + 100000, false);
+      k->stop = true; return;
     }
     std::string bin = mode == "clean" ? "qmail-clean" : mode == "lspawn" ? "qmail-lspawn" : "qmail-rspawn";
     std::vector<std::string> argv = {bin}; if (mode == "lspawn") argv.push_back("./Mailbox");
@@ -317,6 +328,58 @@ struct WorldH : World {
     for (auto &ag : agents) if (!ag.used) { violate("C11.identity", "qmail-local was started for \"" + printable(ag.argv.size() >= 5 ? ag.argv[4] : std::string("?")) + "\" which no command asked for"); break; }
   }
 
+  // C11, passwd leg: qmail-pw2u(8) turns a passwd file into the assignment table "by the same rules as qmail-getpw": an account gets
+  // addresses only if its uid is not zero, its home exists and is owned by it, its name has no upper-case letter (as modified by the
+  // options and by users/include, exclude, mailnames, subusers, append). Reference written from the manual page; the output is
+  // compared line by line, and a line that hands addresses to an account the rules exclude is reported as such.
+  void finish_pw2u() {
+    const Json &pj = plan->knobs["pw2u"]; res->nontrivial = true; k->probe("pw2u_runs");
+    if (!helper_done) { violate("C11.pw2u-did-not-finish", "qmail-pw2u still running"); return; }
+    bool io_fault = false; for (auto &f : k->faults) if (f.fired) io_fault = true;
+    std::string dashcolon = "-:", brk = conf.gets("break", "-").substr(0, 1); int homestrategy = 2; bool noupper = true;
+    for (auto &a : pj["args"].a) { std::string o = a.str(); if (o == "-/") dashcolon = "-/:"; else if (o == "-o") homestrategy = 2; else if (o == "-h") homestrategy = 1; else if (o == "-H") homestrategy = 0; else if (o == "-u") noupper = false; else if (o == "-U") noupper = true; else if (o == "-C") brk = ""; else if (o.compare(0, 2, "-c") == 0 && o.size() == 3) brk = o.substr(2); }
+    auto lines_of = [](const std::string &t2) { std::vector<std::string> v; size_t i = 0; while (i < t2.size()) { size_t e = t2.find('\n', i); if (e == std::string::npos) { v.push_back(t2.substr(i)); break; } v.push_back(t2.substr(i, e - i)); i = e + 1; } return v; };
+    auto listed = [&](const char *fn, const std::string &u, bool &present) { present = pj.has(fn); if (!present) return false; for (auto &l : lines_of(pj.gets(fn))) if (lowers(l) == lowers(u)) return true; return false; };
+    std::string alias = conf["users"].a.size() ? conf["users"].a[0].str() : "alias";
+    struct Acc { std::string user, uugh; }; std::vector<Acc> ok; std::set<std::string> ineligible_uugh; std::string want; bool have_alias = false; int want_code = 0;
+    for (auto &l : lines_of(pj.gets("passwd_text"))) {
+      if (l.find('\0') != std::string::npos) continue;
+      std::vector<std::string> f; { size_t i = 0; for (;;) { size_t e = l.find(':', i); if (e == std::string::npos) { f.push_back(l.substr(i)); break; } f.push_back(l.substr(i, e - i)); i = e + 1; } }
+      if (f.size() < 7) continue;
+      std::string uugh = ":" + f[0] + ":" + f[2] + ":" + f[3] + ":" + f[5] + ":";
+      unsigned long uid = 0; for (char c : f[2]) { if (c < '0' || c > '9') break; uid = uid * 10 + (unsigned long)(c - '0'); }
+      bool el = uid != 0; bool up = false; for (char c : f[0]) if (c >= 'A' && c <= 'Z') up = true; if (noupper && up) el = false;
+      bool pres; if (el) { bool in = listed("include", f[0], pres); if (pres && !in) el = false; } if (el) { bool ex = listed("exclude", f[0], pres); if (pres && ex) el = false; }
+      if (el && homestrategy) { Inode *h = k->lookup(f[5]); if (!h) { if (homestrategy == 1) { want_code = 111; break; } el = false; } else if (h->uid != (uint32_t)uid || uid > 0xffffffffUL) el = false; }
+      if (!el) { ineligible_uugh.insert(uugh); continue; }
+      ineligible_uugh.erase(uugh);
+      ok.push_back(Acc{f[0], uugh});
+      if (f[0] == alias) { want += "+" + uugh + dashcolon + ":\n"; have_alias = true; }
+      std::vector<std::string> names; bool mn = false;
+      if (pj.has("mailnames")) for (auto &ml : lines_of(pj.gets("mailnames"))) { size_t c = ml.find(':'); if (c != std::string::npos && lowers(ml.substr(0, c)) == lowers(f[0])) { mn = true; names.clear(); std::string rest = ml.substr(c + 1); size_t i = 0; while (i <= rest.size()) { size_t e = rest.find(':', i); if (e == std::string::npos) e = rest.size(); if (e > i) names.push_back(rest.substr(i, e - i)); i = e + 1; } } }
+      if (!mn) names.push_back(f[0]);
+      for (auto &nm : names) { want += "=" + nm + uugh + "::\n"; if (!brk.empty()) want += "+" + nm + brk + uugh + dashcolon + ":\n"; }
+    }
+    if (want_code == 0 && !have_alias) want_code = 111;
+    if (want_code == 0 && pj.has("subusers")) for (auto &sl : lines_of(pj.gets("subusers"))) {
+      std::vector<std::string> f; { size_t i = 0; for (;;) { size_t e = sl.find(':', i); if (e == std::string::npos) { f.push_back(sl.substr(i)); break; } f.push_back(sl.substr(i, e - i)); i = e + 1; } }
+      if (f.size() < 4) continue;
+      const Acc *u = nullptr; for (auto &a : ok) if (lowers(a.user) == lowers(f[1])) u = &a;   // (generated tables have no two eligible accounts of one name)
+      if (!u) { want_code = 111; break; }
+      want += "=" + f[0] + u->uugh + dashcolon + f[2] + ":\n"; if (!brk.empty()) want += "+" + f[0] + brk + u->uugh + dashcolon + f[2] + "-:\n";
+    }
+    if (want_code == 0) { if (pj.has("append")) want += pj.gets("append"); want += ".\n"; }
+    int code = (helper_status >> 8) & 0xff; bool sig = helper_status & 0x7f;
+    // whatever else happens, no line may hand addresses to an account the rules exclude (the table is obeyed by a root process)
+    if (!sig && code == 0) for (auto &ol : lines_of(out->data)) { if (ol.empty() || (ol[0] != '=' && ol[0] != '+')) continue; bool from_append = pj.has("append") && pj.gets("append").find(ol + "\n") != std::string::npos; if (from_append) continue;
+      for (auto &bad : ineligible_uugh) if (ol.find(bad) != std::string::npos) { violate("C11.pw2u-ineligible-account", "qmail-pw2u printed \"" + printable(ol, 100) + "\" for an account that its rules exclude (uid 0, home missing or not owned, upper case, not included, excluded)"); return; } }
+    if (io_fault) { if (!sig && code == 0 && out->data != want) violate("C11.pw2u-output", "under an injected fault qmail-pw2u exits 0 with a table that differs from the reference"); return; }
+    if (sig) { violate("C11.pw2u-crash", "qmail-pw2u killed by signal " + std::to_string(helper_status & 0x7f)); return; }
+    if (code != want_code) { violate("C11.pw2u-exit-code", "qmail-pw2u exits " + std::to_string(code) + ", expected " + std::to_string(want_code) + " (" + printable(errs->data, 100) + ")"); return; }
+    if (code == 0 && out->data != want) { std::vector<std::string> a = lines_of(out->data), b = lines_of(want); size_t d = 0; while (d < a.size() && d < b.size() && a[d] == b[d]) d++;
+      violate("C11.pw2u-output", "line " + std::to_string(d + 1) + " of the table is \"" + printable(d < a.size() ? a[d] : std::string("<end>"), 100) + "\", the rules of qmail-pw2u(8) give \"" + printable(d < b.size() ? b[d] : std::string("<end>"), 100) + "\""); return; }
+  }
+
   // C09 (spawner leg): the verdict forwarded to the queue manager never upgrades a refusal, a crash or an unparseable result
   void finish_c09r() {
     struct Cmd { int delnum; std::string recip; };
@@ -349,7 +412,7 @@ struct WorldH : World {
   void finish() override {
     if (plan->knobs.getb("nojudge", false)) { res->nontrivial = true; if (!helper_done) violate("C20.helper-hung", mode + " still running"); Hash64 h9; h9.str(out->data); res->state_hash = h9.get(); return; }
     if (c09r) { finish_c09r(); Hash64 h0; h0.str(out->data); res->state_hash = h0.get(); return; }
-    if (c11) finish_c11(); else if (mode == "clean") finish_clean(); else finish_spawner();
+    if (mode == "pw2u") finish_pw2u(); else if (c11) finish_c11(); else if (mode == "clean") finish_clean(); else finish_spawner();
     Hash64 h; h.str(out->data); res->state_hash = h.get();
   }
 };
